@@ -60,6 +60,12 @@ class World:
         self.limits_arr = np.array([[0.0, 8.0], [10.0, 0.0]])
         self.deltas = [0.25, 0.25]
         self.steps = [1.0, 2.0, 3.0]
+        # the same options as float64 arrays in non-monotonic order (np.asarray does not copy these: an in-place sort,
+        # clip or scaling of "a local" then writes into the caller's array)
+        self.steps_arr = np.array([3.0, 1.0, 2.5, 2.0])
+        self.deltas_arr = np.array([0.5, 0.25])
+        self.Pu = np.array([0.9, 0.1, 0.5])
+        self.dc_arr = np.array([[3.0, 5.0], [1.0, 3.0], [2.0, 4.0]])
         self.sem = {"names": ["Wave height", "Period"], "symbols": ["H_s", "T_z"], "units": ["m", "s"]}
         self.P = np.array([0.1, 0.5, 0.99])
         self.S = np.asarray(self.A.draw_sample(400, random_state=12), dtype=float)
@@ -81,7 +87,7 @@ class World:
 
     def snapshot_parts(self, digits=None):
         parts = {"A": self.A, "A3": self.A3, "X": self.X, "X3": self.X3, "Xneg": self.Xneg, "P": self.P,
-                 "options": [self.limits, self.limits_rev, self.limits_arr, self.deltas, self.steps, self.sem], "S": self.S, "D": self.D, "T": self.T,
+                 "options": [self.limits, self.limits_rev, self.limits_arr, self.deltas, self.steps, self.sem, self.steps_arr, self.deltas_arr, self.Pu, self.dc_arr], "S": self.S, "D": self.D, "T": self.T,
                  "W": self.W, "B": self.B, "B2": self.B2, "Bdesc": self.Bdesc, "B2desc": self.B2desc, "TM": self.TM, "TM0": self.TM0}
         out = {k: history.digest(v, digits if k in ("W", "B", "B2", "Bdesc", "B2desc") else None) for k, v in parts.items()}
         out["process_globals"] = _globals_digest()
@@ -148,7 +154,8 @@ def ev_or(w):
 def ev_design(w):
     c = IFORMContour(w.A, 0.05, n_points=30)
     return (_res(calculate_design_conditions(c, steps=4)), _res(calculate_design_conditions(c, steps=w.steps)),
-            _res(calculate_design_conditions(c, steps=w.steps, swap_axis=True)))
+            _res(calculate_design_conditions(c, steps=w.steps, swap_axis=True)),
+            _res(calculate_design_conditions(c, steps=w.steps_arr)), _res(calculate_design_conditions(c, steps=w.steps_arr, swap_axis=True)))
 
 
 def ev_plots(w):
@@ -158,6 +165,7 @@ def ev_plots(w):
     from virocon import plot_2D_contour, plot_2D_isodensity, plot_dependence_functions
     c = IFORMContour(w.A, 0.05, n_points=30)
     plot_2D_contour(c, sample=w.S, design_conditions=True, semantics=w.sem)
+    plot_2D_contour(c, sample=w.S, design_conditions=w.dc_arr, swap_axis=True)
     plot_2D_isodensity(w.A, w.S, n_grid_steps=20, limits=w.limits, semantics=w.sem)
     plot_dependence_functions(w.A)
     plt.close("all")
@@ -210,6 +218,7 @@ def ev_all_families_writable(w):
         out.append(_res(d.pdf(w.Xneg)))
         out.append(_res(d.cdf(w.Xneg)))
         out.append(_res(d.icdf(w.P)))
+        out.append(_res(d.icdf(w.Pu)))
         out.append(_res(d.pdf(w.X[:, 0])))
     return tuple(out)
 
@@ -270,7 +279,8 @@ EVENTS = {
     "isorm": ("eval", _contour(ISORMContour, n_points=20)),
     "hdc": ("eval", lambda w: _res(HighestDensityContour(w.A, 0.2, limits=w.limits, deltas=w.deltas).coordinates)),
     "hdc_reversed_limits": ("eval", lambda w: (_res(HighestDensityContour(w.A, 0.2, limits=w.limits_rev, deltas=w.deltas).coordinates),
-                                               _res(HighestDensityContour(w.A, 0.2, limits=w.limits_arr, deltas=0.5).coordinates))),
+                                               _res(HighestDensityContour(w.A, 0.2, limits=w.limits_arr, deltas=0.5).coordinates),
+                                               _res(HighestDensityContour(w.A, 0.2, limits=w.limits_arr, deltas=w.deltas_arr).coordinates))),
     "direct_sampling": ("eval", ev_ds),
     "and_contour": ("eval", ev_and),
     "or_contour": ("eval", ev_or),
